@@ -326,6 +326,12 @@ def replay(prop, path):
         print('VIOLATION property=%s replay=%s' % (prop, path))
         rc = 1
     if res['digest'] != res2['digest']:
+        if rc == 1:
+            # the first execution in this (fresh) process shows the violation; the second differs: state survives between
+            # calls inside the code under test (a process-wide cache, say) - part of the finding, not a reason to drop it.
+            # Determinism of the replay is still decided across interpreters (same digest under two hash seeds)
+            print('NOTE: a second execution in the same process gives another event log (%s): state is kept across calls' % res2['digest'])
+            return rc
         print('HARNESS-ERROR: replay is not deterministic')
         return 2
     if rc == 0 and want:
